@@ -20,7 +20,9 @@ expired however often it is evicted and reloaded in between."
   `c03_expired_sound_global`: `Expired()` is false on it; **`c03_expired_refused`**: conversely, at any boundary of any
   fault-free history, when `Expired()` is true on the session proper found under `i`, a request presenting `i` is
   refused (deletion cookie; at most a brand-new session);
-  `c03_active_kept_partial`: the client-level form, with the jar/ghost link `Link3` as a hypothesis;
+  `c03_active_kept_partial`: the client-level form, with the jar/ghost link `Link3` as a hypothesis — the link is
+  proved over histories in `Active03Link.lean` (`linked_all_histories`), which states the client-level theorem in
+  full: `c03_active_kept`;
 * no carve-out is needed for the size-1 cache: a session evicted in mid-request by the `Set` of its own reference
   record is flushed with the stamp of that very instant (`regenerate_served`), and a handler's later write-through of
   the un-cached object carries a `lastAccess` covered by the invariant's clause on the request's object (`KS.cur`);
@@ -724,10 +726,9 @@ client, by value `.val i 24` or from the jar) presenting `i` with the address/Us
 `sess`, and the session it is given is the found object `h` itself (same user, same data) — never a new one; `Start`
 may rotate its id.
 
-PARTIAL: the case where the record found under `i` is a *reference* left by an id rotation (`ref = some _`) is not
-covered here: by `c03_active_not_stale` the reference passes the staleness test as well, but whether the request is
-then given the session depends on the id back-stop (`idExpiry + grace`) and on the chain resolving
-(`More.c05_chain_resolves`, `c01_continuity`), which is C05's subject. -/
+PARTIAL in this form: the case where the record found under `i` is a *reference* left by an id rotation
+(`ref = some _`) is not covered here but in `c03_active_kept_id` below (which needs the chain to resolve and the id
+back-stop not to fire, and says less about the returned object). -/
 theorem c03_active_kept_id_partial {c : Codec} (le : ID → ID → Bool) (w : World) (orc : Orc) (hw : WInv c w) {g : G3}
     (hk : Knows w g) (ho : OrcOK orc) (client : String) (spec : CookieSpec) (ip ua : String) (create : Bool)
     {i : ID} {t : Int} (hp : presentedOf w client spec = some (i, 24)) (hs : lookup i g.served = some t)
@@ -988,10 +989,10 @@ def Link3 (w : World) (g : G3) : Prop :=
 last request sending its cookie was given a session at `t`, and who sends its cookie again less than `SessionExpiry`
 after `t` (as the codec keeps it), is given the session its jar points to, whatever happened to the cache in between.
 
-PARTIAL, two things are missing: (1) `Link3 w g` is a hypothesis here — it is checked on the scripts below at every
-boundary between requests (`linkB`), but its induction over histories (a per-operation cookie analysis on top of
-`Loc/Cookies.lean`, needing requests to be bracketed by `endReq`) is not done; (2) as in `c03_active_kept_id_partial`,
-the case where the jar's id is a reference record. -/
+PARTIAL in this form: (1) `Link3 w g` is a hypothesis here — `Active03Link.lean` proves it over histories whose
+requests are closed by `endReq` (`linked_all_histories`, `link3_between_requests`); (2) as in
+`c03_active_kept_id_partial`, the jar's id must hold a session proper. The full client-level statement, reference
+records included, is `c03_active_kept` in `Active03Link.lean`. -/
 theorem c03_active_kept_partial {c : Codec} (le : ID → ID → Bool) (w : World) (orc : Orc) (hw : WInv c w) {g : G3}
     (hk : Knows w g) (hl : Link3 w g) (ho : OrcOK orc) (client : String) (ip ua : String) (create : Bool)
     {j : ID} {t : Int} (hj : lookup client w.jars = some j) (hlast : lookup client g.lastOK = some t)
